@@ -24,6 +24,8 @@ type gst struct {
 	env    map[string]string
 	stdout string
 	stderr string
+	stdin  string // ts.stdin: set by `stdin`, consumed by the next exec
+	bgs    []gbg  // ts.background, oldest first (genbg.go)
 	probes []string
 }
 
@@ -83,10 +85,11 @@ func (s *gst) sortedDirs() []string {
 }
 
 type gen struct {
-	rng *rand.Rand
-	st  *gst
-	fl  flags
-	ctr int
+	rng    *rand.Rand
+	st     *gst
+	fl     flags
+	ctr    int
+	bgMode bool // this script leans towards exec / background / wait / kill lines
 }
 
 func (g *gen) pick(ss []string) string { return ss[g.rng.Intn(len(ss))] }
@@ -199,7 +202,13 @@ func noop() {}
 func (g *gen) goodLine(depth int) gline {
 	s := g.st
 	for {
-		switch g.rng.Intn(24) {
+		switch g.rng.Intn(28) {
+		case 24, 25, 26, 27: // exec, exec &, wait, kill (genbg.go)
+			l, ok := g.bgGoodLine()
+			if !ok {
+				continue
+			}
+			return l
 		case 0, 1: // exists
 			n := 1 + g.rng.Intn(3)
 			var a []string
@@ -436,18 +445,26 @@ func (g *gen) goodLine(depth int) gline {
 				return gline{text: "! probe " + id + " extra", apply: func() { s.probes = append(s.probes, "!"+id+",extra") }, tag: "neg-probe", custom: true}
 			}
 			return gline{text: "probe " + id, apply: func() { s.probes = append(s.probes, id) }, tag: "probe", custom: true}
-		case 17: // wait / kill / stdin: no background commands exist
+		case 17: // wait / kill (whatever background commands exist must allow it) / stdin
 			switch g.rng.Intn(3) {
 			case 0:
-				return gline{text: "wait", apply: func() { s.stdout, s.stderr = "", "" }, tag: "wait"}
+				l, ok := g.waitLine(true)
+				if !ok {
+					continue
+				}
+				return l
 			case 1:
-				return gline{text: g.pick([]string{"kill", "kill -INT", "kill -KILL"}), apply: noop, tag: "kill"}
+				l, ok := g.killLine()
+				if !ok {
+					continue
+				}
+				return l
 			default:
 				f, ok := g.someFile()
 				if !ok {
 					continue
 				}
-				return gline{text: "stdin " + g.rel(f), apply: noop, tag: "stdin"}
+				return gline{text: "stdin " + g.rel(f), apply: func() { s.stdin = s.files[f] }, tag: "stdin"}
 			}
 		case 18: // a guard that does not hold in front of anything: the line is a no-op
 			if depth > 0 {
@@ -654,8 +671,22 @@ func (g *gen) guard(holds bool) string {
 
 func (g *gen) badLine(depth int) gline {
 	s := g.st
+	// an outstanding background command that ended against its line: `wait` is the line that reports it
+	if depth == 0 && g.chance(50) {
+		if _, fatal, _, _ := s.waitAll(false); fatal {
+			if l, ok := g.waitLine(false); ok {
+				return l
+			}
+		}
+	}
 	for {
-		switch g.rng.Intn(27) {
+		switch g.rng.Intn(31) {
+		case 27, 28, 29, 30: // exec / wait / kill failures (genbg.go)
+			l, ok := g.bgBadLine()
+			if !ok {
+				continue
+			}
+			return l
 		case 0:
 			return gline{text: "exists " + g.rel(g.absent(false)), tag: "bad-exists"}
 		case 1:
